@@ -113,7 +113,7 @@ func fqkGetOrNil(m meta.Definition, container map[string]interface{}) interface{
 func fqkGet(m meta.Definition, container map[string]interface{}) (interface{}, bool) {
 	v, found := container[m.Ident()]
 	if !found {
-		mod := meta.OriginalModule(m)
+		mod := meta.NamespaceModule(m)
 		v, found = container[fmt.Sprintf("%s:%s", mod.Ident(), m.Ident())]
 	}
 	return v, found
